@@ -10,7 +10,7 @@
 (***************************************************************************)
 EXTENDS Integers, Sequences, FiniteSets, TLC, Json
 
-CONSTANTS MaxDim, EmitJson
+CONSTANTS MaxDim, EmitJson, AllUpTo   \* every order tuple over 0..5 for tables of at most AllUpTo dimensions
 
 AllEqual(s) == \A i \in 1 .. Len(s) : s[i] = s[1]
 Routine(nd, ord, templates) ==
@@ -29,8 +29,14 @@ Patterns(nd) ==
     (IF nd = 6 THEN {<<2, 2, 2, 3, 2, 2>>, <<2, 2, 2, 5, 2, 2>>, <<2, 2, 3, 2, 2, 2>>} ELSE {}) \cup
     (IF nd >= 2 THEN {[d \in 1 .. nd |-> IF d = 1 THEN 3 ELSE 2], [d \in 1 .. nd |-> IF d = nd THEN 3 ELSE 2],
                       [d \in 1 .. nd |-> IF d = (nd + 1) \div 2 THEN 1 ELSE 3], [d \in 1 .. nd |-> (d * 2) % 4],
-                      [d \in 1 .. nd |-> IF d % 2 = 0 THEN 0 ELSE 2]}
-     ELSE {})
+                      [d \in 1 .. nd |-> IF d % 2 = 0 THEN 0 ELSE 2],
+                      \* the largest order lies behind the first dimension whose order differs from the first one (any per-table
+                      \* quantity computed while scanning for "all orders equal" must not stop at the first difference)
+                      [d \in 1 .. nd |-> (d - 1) % 4], [d \in 1 .. nd |-> 3 - ((d - 1) % 4)],
+                      [d \in 1 .. nd |-> IF d = nd THEN 5 ELSE IF d = 1 THEN 3 ELSE 2],
+                      [d \in 1 .. nd |-> IF d = 1 THEN 2 ELSE IF d = 2 THEN 1 ELSE 4]}
+     ELSE {}) \cup
+    (IF nd <= AllUpTo THEN [1 .. nd -> 0 .. 5] ELSE {})
 
 VARIABLES nd, ord
 Init == nd \in 1 .. MaxDim /\ ord = <<>>
